@@ -185,6 +185,21 @@ def corrupt_must_writer(run):
     return out if skip == -1 else None
 
 
+def corrupt_after_neutral(run):
+    """a neutral method (clear_stats, ...) zeroed the counters although tokens are live"""
+    seen = False
+    for e in run:
+        if e.get("op") == "neutral":
+            seen = True
+        elif seen and e.get("op") == "obs" and e.get("quiet") and e["ar"] + e["aw"] > 0:
+            e["ar"] = 0
+            e["aw"] = 0
+            return run
+        elif seen and e.get("op") != "obs":
+            seen = False
+    return None
+
+
 def corrupt_use(run):
     for e in run:
         if e.get("op") == "use":
@@ -302,6 +317,8 @@ def run(ctx):
             raise vlib.ToolError("vacuity: level %s never in a sequential history" % lv)
     if s_q["_rc"] == 0 and s_q.get("panic_histories", 0) < 25:
         raise vlib.ToolError("vacuity: panic / unwind histories missing (5 scenarios x 5 levels)")
+    if not s_r.get("ops", {}).get("N") or (s_q["_rc"] == 0 and not s_q.get("stats", {}).get("neutral")):
+        raise vlib.ToolError("vacuity: no neutral method (clear_stats, stats, getters ...) was called")
     if not (s_r.get("ops", {}).get("PR") and s_r.get("ops", {}).get("PW")):
         raise vlib.ToolError("vacuity: no scheduled run with a panicking with_*_token closure")
     for k in () if s_q["_rc"] != 0 else ("scoped_ok", "scoped_err", "scoped_displaces", "acq_cached", "uc_put", "uc_get_hit", "with_version_manager", "validate",
@@ -345,6 +362,7 @@ def run(ctx):
         (seq_files, corrupt_level_facts, "OneWriteMultiRead reports allows_concurrent_writers"),
         (seq_files, corrupt_token_valid, "live token of a closure reports is_valid() = false"),
         (seq_files, corrupt_use, "token lent to insert/lookup/contains_with_token is not a live token"),
+        (seq_files, corrupt_after_neutral, "counters read 0 after a neutral method although tokens are live"),
         (seq_files[::-1], corrupt_unwind, "a token in scope of a caught panic is still counted after the unwinding"),
         (seq_files[::-1], corrupt_quiescent, "active_writers = 1 at quiescence after a survived panic"),
         (seq_files[::-1], corrupt_must_writer, "writer refused at quiescence after a survived panic (OneWriteMultiRead)"),
